@@ -58,7 +58,8 @@ end
 
 /-- The guard for one input under the cache state the shaper is in when it arrives. -/
 def evalGuard (shapeTo : Ty) (c : Cache) (inT : Ty) (v : Val) : Bool :=
-  if v = .null then true
+  if inT.isError then inT == shapeTo
+  else if v = .null then true
   else if inT.under = shapeTo.under then true
   else
     match c.find inT.under with
